@@ -646,6 +646,34 @@ KERNELS = [
                  '  let blobsW : List ((Int × Int) × β) := []\n  let activeW : List (Int × γ) := []\n'
                  '  let resetW : List (Int × Unit) := []',
          result='(positionsW, statsW, blobsW, activeW, resetW)'),
+    # --- the ladder recursion of the dynamical annealer (C17): new betas in place, colder neighbour already
+    #     updated, end points untouched, every intermediate LEVEL gets its new beta
+    dict(name='annealLoop', file='epsie/chain/ptchain.py', cls='DynamicalAnnealer', func='__call__',
+         params=[('ntemps', 'Int'), ('betas', 'List Rat'), ('es', 'List Rat')],
+         ret='List Rat × List (Int × Rat)',
+         bind={'chain.ntemps': 'ntemps', 'chain.betas': 'betas', 'numpy.exp(self._S[i - 1])': 'Src.get es (i - 1)'},
+         writelogs={'chain.chains[i].beta': ('levelW', 'i')},
+         carried=['betas', 'levelW'], start_at='for i in range(1, chain.ntemps - 1)',
+         prelude='let levelW : List (Int × Rat) := []', result='(betas, levelW)'),
+    # --- memory management (C06): Chain.clear and the scratch growth requested by Sampler.run
+    dict(name='chainClear', file='epsie/chain/chain.py', cls='Chain', func='clear',
+         params=[('α', 'Type'), ('σ', 'Type'), ('β', 'Type'), ('hasblobs', 'Bool'), ('iteration', 'Int'),
+                 ('lastclear', 'Int'), ('scratchlen', 'Int'), ('current_pos', 'α'), ('current_stats', 'σ'),
+                 ('current_blob', 'β'), ('start', 'α'), ('stats0', 'σ'), ('blob0', 'β')],
+         ret='α × σ × β × List (String × Int) × Int',
+         bind={'self._iteration': 'iteration', 'self._lastclear': 'lastclear', 'self.scratchlen': 'scratchlen',
+               'self.hasblobs': 'hasblobs', 'self.current_position': 'current_pos',
+               'self.current_stats': 'current_stats', 'self.current_blob': 'current_blob',
+               'self._start': 'start', 'self._stats0': 'stats0', 'self._blob0': 'blob0'},
+         effects={'self._positions.clear(self.scratchlen)': 'cleared := Src.wr cleared "positions" scratchlen',
+                  'self._stats.clear(self.scratchlen)': 'cleared := Src.wr cleared "stats" scratchlen',
+                  'self._acceptance.clear(self.scratchlen)': 'cleared := Src.wr cleared "acceptance" scratchlen',
+                  'self._blobs.clear(self.scratchlen)': 'cleared := Src.wr cleared "blobs" scratchlen'},
+         prelude='let cleared : List (String × Int) := []', return_self=True,
+         result='(start, stats0, blob0, cleared, lastclear)'),
+    dict(name='runGrowth', file='epsie/samplers/base.py', cls='BaseSampler', func='run',
+         params=[('niterations', 'Int'), ('scratchlen', 'Int'), ('len', 'Int')], ret='Int',
+         bind={'c.scratchlen': 'scratchlen', 'len(c)': 'len'}, special='rungrowth'),
     # --- epsie/chain/ptchain.py: sweep schedule, the sweep loop, row indices, the row views (C03, C09)
     dict(name='sweepDue', file='epsie/chain/ptchain.py', cls='ParallelTemperedChain', func='step',
          params=[('ntemps', 'Int'), ('iteration', 'Int'), ('swap_interval', 'Int')], ret='Bool',
@@ -755,6 +783,18 @@ def special(spec):
                 or src(outs2[0].slice.upper) != src(outs[0].slice.upper):
             raise Unsupported('temperature_acceptance view differs from temperature_swaps')
         return '%s\ndef %s %s : %s :=\n  %s\n' % (head, spec['name'], params, spec['ret'], up)
+    if kind == 'rungrowth':
+        loops = [n for n in fn.body if isinstance(n, ast.For) and src(n.iter) == 'self.chains' and src(n.target) == 'c']
+        if len(loops) != 1 or len(loops[0].body) != 1 or not isinstance(loops[0].body[0], ast.AugAssign) \
+                or src(loops[0].body[0].target) != 'c.scratchlen' or not isinstance(loops[0].body[0].op, ast.Add):
+            raise Unsupported('scratch growth of run()')
+        # nothing else in run() may touch the scratch length
+        others = [n for n in ast.walk(fn) if isinstance(n, ast.Attribute) and n.attr == 'scratchlen'
+                  and not any(n is m for m in ast.walk(loops[0]))]
+        if others:
+            raise Unsupported('run() touches scratchlen outside the growth loop')
+        return '%s\ndef %s %s : %s :=\n  (scratchlen + %s)\n' % (head, spec['name'], params, spec['ret'],
+                                                                tr.expr(loops[0].body[0].value))
     if kind == 'annealerrow':
         it = assigns_to('iteration')
         ii = assigns_to('ii')
